@@ -99,6 +99,10 @@ class Model:
             else:
                 b = bytes.fromhex(d['$bytearray'])
             self.lf_by_h[op['lf']].nf.append((op['nf'], b))
+        elif k == 'dsname':
+            self.objs[op['h']].dataset_name = op['value']
+        elif k == 'cast':
+            self.objs[op['h']].cast = op['value']['$dtype'] if op['value'] else None
         elif k in ('hc', 'rename'):
             if k == 'rename':
                 self.objs[op['h']].name = op['value']
@@ -717,7 +721,9 @@ def check_identity_and_refs(m: Model, mlf: MLF, lf: R.LogicalFile) -> list[tuple
             ids[(s.type, ob.name)] = ids.get((s.type, ob.name), 0) + 1
     for key, n in ids.items():
         if n > 1 and key[0] != 'FILE-HEADER':
-            errs.append(('identity_duplicate', f"{n} objects share identity {key}"))
+            in_sets = [s.name for s in lf.sets if s.type == key[0] and any(ob.name == key[1] for ob in s.objects)]
+            where = 'across-named-sets' if len(in_sets) == n else 'within-set'
+            errs.append((f'identity_duplicate:{where}', f"{n} objects share identity {key} (sets named {in_sets})"))
     origin_refs = {ob.name.origin for ob in lf.objects('ORIGIN')}
     by_name: dict[R.ObName, list[str]] = {}
     for (t, n) in ids:
@@ -739,7 +745,13 @@ def check_identity_and_refs(m: Model, mlf: MLF, lf: R.LogicalFile) -> list[tuple
                                                          f"in this logical file"))
                 elif a.e_code == R.OBJREF:
                     for v in a.e_values:
-                        if ids.get((v.type, v.obname), 0) != 1:
-                            errs.append(('ref_dangling', f"{s.type}:{ob.name.name}.{a.e_label} -> {v}: resolves to "
-                                                         f"{ids.get((v.type, v.obname), 0)} objects"))
+                        k = ids.get((v.type, v.obname), 0)
+                        if k == 0:
+                            errs.append(('ref_dangling', f"{s.type}:{ob.name.name}.{a.e_label} -> {v}: no such object"))
+                        elif k > 1:
+                            in_sets = [s2.name for s2 in lf.sets if s2.type == v.type
+                                       and any(o2.name == v.obname for o2 in s2.objects)]
+                            where = 'across-named-sets' if len(in_sets) == k else 'within-set'
+                            errs.append((f'ref_ambiguous:{where}', f"{s.type}:{ob.name.name}.{a.e_label} -> {v}: "
+                                                                   f"resolves to {k} objects (sets named {in_sets})"))
     return errs
